@@ -157,6 +157,7 @@ Variable is_alpha : N -> bool.
 Variable b : backend.
 Variable inl : bool.
 Variable T : etables.
+Variable qok : Q -> bool.     (* the sub-queries whose renderings are good scripts *)
 
 Notation G := (G ftext b inl).
 Notation lexes := (lexes ftext b inl).
@@ -166,18 +167,21 @@ Notation rexpr := (rexpr Q rq is_alpha b T).
 (* the expression carries no raw SQL, and its constants are written as lexable literals *)
 Fixpoint expr_plain (e : expr Q) : bool :=
   match e with
-  | ECustom _ | ECustomWith _ _ => false
-  | EKeyword (KwCustom _) => false
+  | ECustomWith _ _ => false
+  | ECustom s => tok_lexes ftext b inl (WCust s)          (* raw SQL that lexes on its own (it always stands between separators) *)
+  | EKeyword (KwCustom s) => tok_lexes ftext b inl (WCust s)
   | EConstant v => tok_lexes ftext b inl (WConst v)
   | EValue v => tok_lexes ftext b inl (WVal v)          (* trivially true for the parameterised SQL *)
   | EValues vs => forallb (fun v => tok_lexes ftext b inl (WVal v)) vs
   | ETuple es => forallb expr_plain es
   | ENot x => expr_plain x
   | EFunc f args =>
-      (match f with FCustom _ => false | _ => true end) &&
+      (match f with FCustom n => tok_lexes ftext b inl (WCust n) | _ => true end) &&
       forallb (fun a : bool * expr Q => expr_plain (snd a)) args
-  | EBinary l op r => (match op with BCustom _ => false | _ => true end) && expr_plain l && expr_plain r
+  | EBinary l op r => (match op with BCustom s => tok_lexes ftext b inl (WCust s) | _ => true end) &&
+                      expr_plain l && expr_plain r
   | EAsEnum _ x => expr_plain x
+  | ESubQuery _ q => qok q
   | ECase whens els =>
       forallb (fun w : expr Q * expr Q => expr_plain (fst w) && expr_plain (snd w)) whens &&
       match els with Some x => expr_plain x | None => true end
@@ -188,7 +192,7 @@ Fixpoint expr_plain (e : expr Q) : bool :=
 Hypothesis HT_bin : forall k s, t_binop T k = Some s -> lexes s = true.
 Hypothesis HT_func : forall k s, t_func T k = Some s -> lexes s = true.
 Hypothesis HT_sq : forall k s, t_sqop T k = Some s -> lexes s = true.
-Hypothesis Hrq : forall q, G (rq q).
+Hypothesis Hrq : forall q, qok q = true -> G (rq q).
 
 (* the constant texts of the expression renderer *)
 Ltac const := destruct b; vm_compute; reflexivity.
@@ -252,14 +256,15 @@ Qed.
 Lemma G_opt_text o : (forall s, o = Some s -> lexes s = true) -> G (opt_text o).
 Proof. intros H. destruct o as [s|]; cbn [opt_text]; apply G_one; [now apply H|reflexivity]. Qed.
 
-Lemma G_binary_expr l op r sl sr : (match op with BCustom _ => False | _ => True end) ->
+Lemma G_binary_expr l op r sl sr : (match op with BCustom s => tok_lexes ftext b inl (WCust s) | _ => true end) = true ->
   G sl -> G sr -> G (binary_expr Q T l op r sl sr).
 Proof.
   intros Hop Hl Hr. unfold binary_expr. destruct c_sp as (S1 & S2 & S3).
   set (lp := negb _ && negb _). set (rp := negb _ && negb _ && negb _ && negb _).
   unfold ws. cbn [app]. apply G_sandwich; [now apply G_wrap| |exact S1|exact S2|exact S3].
   apply G_sandwich; [|now apply G_wrap|exact S1|exact S2|exact S3].
-  unfold rbinop. destruct op; try contradiction; apply G_opt_text; intros s Hs; eapply HT_bin; exact Hs.
+  unfold rbinop. destruct op; try (apply G_opt_text; intros s Hs; eapply HT_bin; exact Hs).
+  apply G_one. exact Hop.
 Qed.
 
 Lemma wid_toks s : text_toks b (ScriptSafe.tok_text ftext b inl (WId s)) = Some [TkId s] /\
@@ -344,17 +349,18 @@ Proof.
     apply G_sandwich; [apply G_one, c_not|apply G_wrap, (IH Hp)|exact S1|exact S2|exact S3].
   - (* function *) intros common. cbn [RenderExpr.rexpr]. apply andb_prop in Hp as [Hf Ha]. unfold ws. cbn [app].
     apply G_sandwich; [|apply G_post; [|exact R1|exact R3]|exact L1|exact L2|exact L3].
-    + unfold rfunc_name. destruct f; try discriminate Hf; apply G_opt_text; intros s0 Hs0; eapply HT_func; exact Hs0.
+    + unfold rfunc_name. destruct f; try (apply G_opt_text; intros s0 Hs0; eapply HT_func; exact Hs0).
+      apply G_one. exact Hf.
     + apply G_sepby. rewrite forallb_forall in Ha. rewrite Forall_forall in IH. apply Forall_forall. intros sc Hin.
       apply in_map_iff in Hin as [a [<- Hin]]. destruct c_distinct as (D1 & D2).
       destruct (fst a); cbn [app]; [unfold ws; apply G_pre; [|exact D1|exact D2]|];
         apply (IH a Hin (Ha a Hin)).
   - (* binary *) apply andb_prop in Hp as [Hp Hr]. apply andb_prop in Hp as [Hop Hl].
-    assert (Hop' : match op with BCustom _ => False | _ => True end) by (destruct op; try exact I; discriminate Hop).
+    assert (Hop' := Hop).
     destruct (IHl Hl) as [Gl _]. destruct (IHr Hr) as [Gr Gr2].
     intros common. cbn [RenderExpr.rexpr].
     destruct (is_empty_in Q op r).
-    + destruct c_int as [I1 I2]. destruct op; apply G_binary_expr; try exact I; apply G_one; assumption.
+    + destruct c_int as [I1 I2]. destruct op; apply G_binary_expr; try reflexivity; apply G_one; assumption.
     + apply G_binary_expr; [exact Hop'|apply Gl|].
       destruct r as [| | | |lo o hi| | | | | | | | |]; try apply Gr.
       destruct o; try apply Gr. destruct (is_between op); [|apply Gr].
@@ -363,17 +369,17 @@ Proof.
   - (* binary, second component *) apply andb_prop in Hp as [Hp Hr]. apply andb_prop in Hp as [Hop Hl].
     split; [apply (IHl Hl)|apply (IHr Hr)].
   - (* sub-query *) intros common. cbn [RenderExpr.rexpr]. unfold ws. cbn [app].
-    apply G_sandwich; [|apply G_post; [apply Hrq|exact R1|exact R3]|exact L1|exact L2|exact L3].
+    apply G_sandwich; [|apply G_post; [apply Hrq, Hp|exact R1|exact R3]|exact L1|exact L2|exact L3].
     destruct op as [o|]; [|apply G_nil]. apply G_opt_text. intros s0 Hs0. eapply HT_sq; exact Hs0.
   - (* value *) intros common. cbn [RenderExpr.rexpr]. apply G_one. exact Hp.
   - (* values *) intros common. cbn [RenderExpr.rexpr]. unfold ws. apply G_pre; [|exact L1|exact L2].
     apply G_post; [|exact R1|exact R3]. apply G_sepby. apply Forall_forall. intros sc Hin.
     apply in_map_iff in Hin as [v0 [<- Hv0]]. apply G_one. rewrite forallb_forall in Hp. now apply Hp.
-  - (* custom *) discriminate Hp.
+  - (* custom *) intros common. cbn [RenderExpr.rexpr]. apply G_one. exact Hp.
   - discriminate Hp.
   - (* keyword *) intros common. cbn [RenderExpr.rexpr].
-    destruct k; cbn [rkeyword]; try discriminate Hp; apply G_one; unfold ws;
-      [exact Knull|exact Kcd|exact Kct|exact Kcts].
+    destruct k; cbn [rkeyword]; apply G_one; unfold ws;
+      [exact Knull|exact Kcd|exact Kct|exact Kcts|exact Hp].
   - (* as enum *) intros common. cbn [RenderExpr.rexpr]. destruct (IH Hp) as [Gx _].
     apply G_match_b; [|apply Gx].
     destruct c_cast as (C1 & C2). destruct c_as as (A1 & A2 & A3). destruct c_brackets as (B1 & B2 & B3).
@@ -427,16 +433,18 @@ Definition spellings_lex : Prop :=
   (forall k s, t_sqop T k = Some s -> text_lexes b s = true).
 
 Theorem rendered_expression_is_locally_safe inl e common :
-  spellings_lex -> (forall q, sc_ok ftext b inl (rq q) = true) -> expr_plain ftext Q b inl e = true ->
+  spellings_lex -> (forall q, sc_ok ftext b inl (rq q) = true) ->
+  expr_plain ftext Q b inl (fun _ => true) e = true ->
   sc_ok ftext b inl (rexpr Q rq is_alpha b T common e) = true.
 Proof.
   intros (H1 & H2 & H3) Hq Hp.
-  rewrite <- sc_okn_none. apply (rexpr_good ftext Q rq is_alpha b inl T H1 H2 H3); [|exact Hp].
-  intros q. unfold G. rewrite sc_okn_none. apply Hq.
+  rewrite <- sc_okn_none. apply (rexpr_good ftext Q rq is_alpha b inl T (fun _ => true) H1 H2 H3); [|exact Hp].
+  intros q _. unfold G. rewrite sc_okn_none. apply Hq.
 Qed.
 
 Theorem rendered_expression_is_separable e common :
-  spellings_lex -> (forall q, sc_ok ftext b false (rq q) = true) -> expr_plain ftext Q b false e = true ->
+  spellings_lex -> (forall q, sc_ok ftext b false (rq q) = true) ->
+  expr_plain ftext Q b false (fun _ => true) e = true ->
   sc_ok ftext b false (rexpr Q rq is_alpha b T common e) = true /\
   params_sep ftext b (rexpr Q rq is_alpha b T common e) = true.
 Proof.
@@ -446,7 +454,8 @@ Qed.
 
 (* the inline SQL of to_string(): the literal of every value and constant of the tree must lex (expr_plain .. true) *)
 Theorem rendered_expression_is_separable_inline e common :
-  spellings_lex -> (forall q, sc_ok ftext b true (rq q) = true) -> expr_plain ftext Q b true e = true ->
+  spellings_lex -> (forall q, sc_ok ftext b true (rq q) = true) ->
+  expr_plain ftext Q b true (fun _ => true) e = true ->
   inline_sep ftext b (rexpr Q rq is_alpha b T common e) = true.
 Proof.
   intros HT Hq Hp. apply sc_ok_inline_sep. now apply rendered_expression_is_locally_safe.
